@@ -300,6 +300,9 @@ func verifC17_AcceptErrors() {
 		}
 	}()
 	verifQuiesce()
+	// held back means: not even taken from the underlying listener (its accept queue, and the
+	// client's connect, wait) - the server never owns more than cap accepted connections
+	verifAssert(inner.accepted <= capacity, "no-connection-beyond-the-cap-is-taken-from-the-listener")
 	if want > capacity {
 		verifAssert(open == capacity, "connection-beyond-the-cap-held-back")
 		blocked = true
